@@ -30,6 +30,12 @@ CLAIMS = {
          "Decides for both type families: eq compares like-named fields of both operands and all of them; hash feeds exactly those; cmp compares the same fields in the same positions in the documented order (dual: normalised part first); PartialOrd = Some(cmp); dependence on the zero tail discharged by SA-TAIL. The order as a value statement over all pairs is NOT decided.", "§3.5, §4 C16"),
  "C17": ("typestate analysis (Zero/Unknown) over the occupancy-mask locations with effects inferred from bodies, at every call site, on MIR",
          "Decides the history clause: at every call site of an accumulate-first initialiser the masks are Zero on every incoming path (dominating clear on the same location, or fresh all-zero object), requirement-passing functions are not exported, views pair mask K with length K; lengths/block size copied from like-named fields. That the bits equal the string is NOT decided.", "§3.7, §4 C17"),
+ "C02": ("dimension (effective-block-size) analysis of every block-hash pairing + dispatcher agreement + exact guards + formula-tree match, on MIR (debug-assertion configurations for the relation beliefs)",
+         "Decides which strings are compared, at which effective block size, combined how, on every entry point: pairs per relation {(1,1),(2,2)}max / {(2,1)} / {(1,2)}, block size argument = effective size, far->0, identical->100 first, no common substring->0 first, capping exactly below the border as min(raw,cap), raw/cap formula trees, string front end. The score VALUE (edit distance, substring test) is NOT decided.", "§3.8, §3.3, §4 C02"),
+ "C05": ("exact refusal guard + error-path purity + single-formatter delegation + ASCII-source census of buffer stores + length formula tree + exhaustive table checks",
+         "Decides the formatter contract structurally: refusal iff buffer.len() < len_in_str() without writing; Ok(len_in_str()); to_string/Display/String::from all use the one formatter and slice/allocate by its own length; only ASCII table bytes and b':' are stored (from_utf8 cannot fail / unchecked variant sound); len formula and MAX_LEN_IN_STR; alphabet tables exact inverses. parse(format(x))==x is NOT decided.", "§3.1, §3.3, §3.4, §3.11, §3.13, §4 C05"),
+ "C10": ("dimension analysis of candidate-test pairings vs scorer pairings + dispatcher rules + window accessor typing + constant checks",
+         "Decides: far->0/false; candidate test and scorer use the same pairs per relation at equal effective block sizes; score 0 exactly on the no-common-substring arm; equality->100; index windows carry log / log+1; window constants; short inputs return false without scanning. Raw score >= 1, injectivity and symmetry as values are NOT decided.", "§3.8, §3.1, §4 C10"),
 }
 NA = {
  "C01": "byte-exact agreement with the ssdeep CTPH algorithm is numeric over all inputs (piece boundaries, FNV folding, fork/elimination); no necessary condition is visible in code shape beyond those checked under C11/C12/C13/C14/C19; static analysis cannot decide it",
